@@ -5,6 +5,8 @@ container, applies the same operations to both and compares observable behaviour
 """
 from __future__ import annotations
 
+from vf.bounded import _meta_guard as _g  # noqa: E402
+
 import copy
 import functools
 import itertools
@@ -735,7 +737,12 @@ SF_OPS = ["insert", "insert", "append", "extend", "set", "set", "del", "delslice
 
 # =====================================================================================
 def run_bounded(ctx):
+    _g.begin("C19", ctx)
     counts = {}
+
+    def rec(b):
+        return lambda clause, cls, witness, detail: _fail(b, counts, clause, cls, witness, detail)
+
     rng = random.Random(ctx.seed)
     with ctx.bounded(
         "structured-nestings",
@@ -748,7 +755,7 @@ def run_bounded(ctx):
         for i in range(20000 if ctx.thorough else 2500):
             counter = [0]
             m = gen_struct(rng, rng.randint(0, 3), counter)
-            check_structured(b, counts, rng, m)
+            _g.guard(rec(b), check_structured, b, counts, rng, m)
     with ctx.bounded(
         "layered-mapping-histories",
         rule="every operation sequence of length <= 2 (quick) / 3 (thorough) over 13 operations, and seeded random sequences of "
@@ -762,10 +769,10 @@ def run_bounded(ctx):
         alphabet = sorted(set(LM_OPS))
         for L in range(0, (3 if ctx.thorough else 2) + 1):
             for ops in itertools.product(alphabet, repeat=L):
-                run_lm_sequence(b, counts, rng, ops, counter)
+                _g.guard(rec(b), run_lm_sequence, b, counts, rng, ops, counter)
         for _ in range(60000 if ctx.thorough else 6000):
             ops = [rng.choice(LM_OPS) for _ in range(rng.randint(1, 8))]
-            run_lm_sequence(b, counts, rng, ops, counter)
+            _g.guard(rec(b), run_lm_sequence, b, counts, rng, ops, counter)
     with ctx.bounded(
         "simple-formula-histories",
         rule="for each ordering (degree, none, sort): every operation sequence of length <= 2 (quick) / 3 (thorough) over "
@@ -779,9 +786,9 @@ def run_bounded(ctx):
         for ordering in ("degree", "none", "sort"):
             for L in range(0, (3 if ctx.thorough else 2) + 1):
                 for ops in itertools.product(alphabet, repeat=L):
-                    run_sf_sequence(b, counts, rng, ordering, list(ops))
+                    _g.guard(rec(b), run_sf_sequence, b, counts, rng, ordering, list(ops))
             for _ in range(15000 if ctx.thorough else 1500):
-                run_sf_sequence(b, counts, rng, ordering, [rng.choice(SF_OPS) for _ in range(rng.randint(1, 8))])
+                _g.guard(rec(b), run_sf_sequence, b, counts, rng, ordering, [rng.choice(SF_OPS) for _ in range(rng.randint(1, 8))])
     ctx.assume(
         "C19-structured: nested tuples are structure (as in the constructor, _map, _to_dict and _simplify); leaves are non-tuple objects",
         "C19-merge: operands are aligned (no tuple meets a non-tuple; tuples never collide) so that _merge is a pure dictionary merge; "
